@@ -245,6 +245,8 @@ func TestVerifRelay(t *testing.T) {
 	n := vcount(150)
 	stats := map[string]int{}
 	baseG := 0
+	nfail := 0
+	fail := func(idx int, sig, desc string) { nfail++; out.fail(idx, sig, desc) }
 	for idx := 0; idx < n; idx++ {
 		k := r.pick(1, 1, 2, 2, 3)
 		kind := r.pick(0, 0, 0, 1)
@@ -252,7 +254,7 @@ func TestVerifRelay(t *testing.T) {
 		faultUp := r.intn(k)
 		mode := r.intn(3) // 0: client finishes promptly; 1: client half-closes only after it saw end-of-stream; 2: client half-closes after a pause
 		big := r.intn(3) == 0
-		preC := mkRelayChunk(0, 200, r.next(), r.pick(0, 0, 1, 50, 2048, 4000))
+		preC := mkRelayChunk(0, 200, r.next(), r.pick(0, 0, 1, 50, 2048, 4000, 8192, 8193, 9000, 10239))
 		pre := preC.b
 		pause := r.pick(1, 3, 8)
 		dr := &vrng{r.next()}
@@ -449,43 +451,46 @@ func TestVerifRelay(t *testing.T) {
 			// ---- the property's predicates
 			got := results[i].got
 			if !bytes.HasPrefix(sentC, got) {
-				out.fail(idx, "upstream-stream", fmt.Sprintf("upstream %d received %d bytes that are not a prefix of the client's %d-byte stream (first difference at %d)", i, len(got), len(sentC), firstDiff(sentC, got)))
+				fail(idx, "upstream-stream", fmt.Sprintf("upstream %d received %d bytes that are not a prefix of the client's %d-byte stream (first difference at %d)", i, len(got), len(sentC), firstDiff(sentC, got)))
 			} else if fault == 0 && !bytes.Equal(sentC, got) {
-				out.fail(idx, "upstream-stream", fmt.Sprintf("upstream %d received only %d of the client's %d bytes (prefetched %d) although nobody closed abruptly", i, len(got), len(sentC), len(pre)))
+				fail(idx, "upstream-stream", fmt.Sprintf("upstream %d received only %d of the client's %d bytes (prefetched %d) although nobody closed abruptly", i, len(got), len(sentC), len(pre)))
 			}
 			if !bytes.HasPrefix(sentU, mine) {
-				out.fail(idx, "client-stream", fmt.Sprintf("the client received %d bytes of upstream %d that are not a prefix of what it sent (%d bytes; first difference at %d)", len(mine), i, len(sentU), firstDiff(sentU, mine)))
+				fail(idx, "client-stream", fmt.Sprintf("the client received %d bytes of upstream %d that are not a prefix of what it sent (%d bytes; first difference at %d)", len(mine), i, len(sentU), firstDiff(sentU, mine)))
 			} else if fault == 0 && !bytes.Equal(sentU, mine) {
-				out.fail(idx, "client-stream", fmt.Sprintf("the client received only %d of the %d bytes upstream %d sent although nobody closed abruptly", len(mine), len(sentU), i))
+				fail(idx, "client-stream", fmt.Sprintf("the client received only %d of the %d bytes upstream %d sent although nobody closed abruptly", len(mine), len(sentU), i))
 			}
 			if fault == 0 && !results[i].eof {
-				out.fail(idx, "eof-not-propagated", fmt.Sprintf("upstream %d never observed end-of-stream after the client half-closed (read error %q)", i, results[i].err))
+				fail(idx, "eof-not-propagated", fmt.Sprintf("upstream %d never observed end-of-stream after the client half-closed (read error %q)", i, results[i].err))
 			}
 		}
 		if fault == 0 && !clEOF {
-			out.fail(idx, "eof-not-propagated", fmt.Sprintf("the client never observed end-of-stream after every upstream half-closed (read error %q)", clErr))
+			fail(idx, "eof-not-propagated", fmt.Sprintf("the client never observed end-of-stream after every upstream half-closed (read error %q)", clErr))
 		}
 		if len(clGot) > 0 {
 			for _, b := range clGot {
 				if b < 200 || int(b) >= 200+18*k {
-					out.fail(idx, "client-stream", fmt.Sprintf("the client received byte %d that no upstream sent", b))
+					fail(idx, "client-stream", fmt.Sprintf("the client received byte %d that no upstream sent", b))
 					break
 				}
 			}
 		}
 		if !returned {
-			out.fail(idx, "handler-not-returned", fmt.Sprintf("Handle did not return within 12 s (k=%d fault=%d mode=%d held=%v)", k, fault, mode, anyHeld))
+			fail(idx, "handler-not-returned", fmt.Sprintf("Handle did not return within 12 s (k=%d fault=%d mode=%d held=%v)", k, fault, mode, anyHeld))
 		} else {
 			if !fdOK {
-				out.fail(idx, "upstream-conn-leaked", fmt.Sprintf("%d socket(s) still open after Handle returned and every peer closed its side", leak))
+				fail(idx, "upstream-conn-leaked", fmt.Sprintf("%d socket(s) still open after Handle returned and every peer closed its side", leak))
 			}
 			if !gOK && joined {
-				out.fail(idx, "goroutine-leak", fmt.Sprintf("%d goroutines after the scenario, %d before the first", runtime.NumGoroutine(), baseG))
+				fail(idx, "goroutine-leak", fmt.Sprintf("%d goroutines after the scenario, %d before the first", runtime.NumGoroutine(), baseG))
 			}
 		}
 		fmt.Fprintln(out.out, ob.String())
-		if !returned {
-			// do not let a stuck scenario poison the following ones
+		out.cases.Flush()
+		out.out.Flush()
+		out.orc.Flush()
+		if !returned || nfail >= 5 {
+			// do not let a stuck scenario poison the following ones; a handful of failing scenarios is enough
 			break
 		}
 	}
